@@ -259,7 +259,20 @@ fn matrix() -> Vec<Case> {
         for (props, why) in invalid_variants(rule) {
             out.push(Case::Invalid(json!({"rules": [with_rule(rule, &props)]}), format!("{}: {}", rule, why)));
         }
-        // duplicate keys
+        // duplicate keys: every property of every accepted variant given twice (same value, and
+        // first a different one: "the last one wins" is silently ignoring the first)
+        for props in valid_variants(rule) {
+            let Some(obj) = props.as_object() else { continue };
+            for (k, v) in obj {
+                let full = with_rule(rule, &props).to_string();
+                for first in [v.clone(), json!(null), json!("other")] {
+                    // `{"k":first,` + the rest of the object, which holds k again
+                    let text = format!("{{\"rules\": [{{{}:{},{}]}}", json!(k), first, &full[1..]);
+                    out.push(Case::InvalidText(text, format!("{}: property `{}` given twice", rule, k)));
+                }
+            }
+        }
+        out.push(Case::InvalidText(format!("{{rules: [{{rule: '{}', skip_files: '**', skip_files: '**'}}]}}", rule), format!("{}: duplicate skip_files", rule)));
         out.push(Case::InvalidText(format!("{{rules: [{{rule: '{}', rule: '{}'}}]}}", rule, rule), format!("{}: duplicate `rule` key", rule)));
         out.push(Case::InvalidText(
             format!("{{rules: [{{rule: '{}', apply_to_files: '**', apply_to_files: '**'}}]}}", rule),
@@ -291,6 +304,24 @@ fn matrix() -> Vec<Case> {
     out.push(Case::InvalidText("{rules: [], process: []}".into(), "rules and its alias together".into()));
     out.push(Case::InvalidText("{generator: 'dense', generator: 'dense'}".into(), "duplicate generator".into()));
     out.push(Case::InvalidText("[]".into(), "configuration is a list".into()));
+    for g in valid_generators() {
+        if let Some(obj) = g.as_object() {
+            for (k, v) in obj {
+                out.push(Case::InvalidText(format!("{{\"generator\": {{{}:{},{}}}", json!(k), v, &g.to_string()[1..]), format!("generator key `{}` given twice", k)));
+            }
+        }
+    }
+    for b in valid_bundles() {
+        if let Some(obj) = b.as_object() {
+            for (k, v) in obj {
+                out.push(Case::InvalidText(format!("{{\"bundle\": {{{}:{},{}}}", json!(k), v, &b.to_string()[1..]), format!("bundle key `{}` given twice", k)));
+            }
+        }
+    }
+    for k in ["bundle", "apply_to_files", "skip_files"] {
+        let v = if k == "bundle" { json!({"require_mode": "path"}) } else { json!("**") };
+        out.push(Case::InvalidText(format!("{{{k}: {v}, {k}: {v}}}"), format!("duplicate top-level key {}", k)));
+    }
     out.push(Case::Valid(json!({})));
     out.push(Case::Valid(json!({"process": ["remove_spaces"]})));
     for g in valid_generators() {
